@@ -536,7 +536,9 @@ fn replay_text(prop: &str, kind: &str, model: &ArrDesc, stream: &Stream, detail:
 
 pub fn random_model(rng: &mut Rng) -> ArrDesc {
     let period = rng.range(1, 40);
-    let sw = crate::gen::ArrSwarm::random(rng);
+    let mut sw = crate::gen::ArrSwarm::random(rng);
+    // a user-defined leaf (bursts of k every T) under the library's wrappers and compositions
+    sw.allow_user = true;
     // ExtrapolatingCurve (caching; decided in depth by C13) takes part here with the process
     // "sequences respecting the given delta-min prefix"
     let m = crate::gen::random_arrival(rng, period.max(2), &sw);
